@@ -1,4 +1,5 @@
 import CobraModel.Lemmas.Formulations
+import CobraModel.Lemmas.AuxProb
 /-!
 # C17 — loopless methods remove cycles without changing what matters
 
@@ -113,5 +114,29 @@ theorem cycle_free_bounds (flux lb ub v : Rat) :
 
 example : (0 < (3 : Rat) → (-2 : Rat) < 0) ∧ ((3 : Rat) < 0 → 0 < (-2 : Rat)) :=
   force_opposes_flux 3 1 (-2) 10 (by norm_num) (Or.inr rfl) (by norm_num) (by norm_num) (by norm_num) (by norm_num)
+
+
+/-! ### the whole problem `loopless_solution` solves
+
+`AuxM.Net.cycleFree n fluxes opt`: the flux-balance problem with the bounds `_add_cycle_free` sets (`AuxM.cycleFreeBounds`), the row
+`loopless_obj_constraint` (objective at or beyond `opt` in the model's direction), objective = the variable of each internal reaction that
+carries its start flux, direction min.  Compared entry by entry with the raw GLPK problem (`harness/auxcorr.py`). -/
+open AuxM in
+/-- **CycleFreeFlux, whole problem**: an optimum is a flux vector of the region (bounds of `_add_cycle_free`, objective kept) with the smallest
+total flux through the internal reactions; the optimal value is that total -/
+theorem cycle_free_problem_optimum (n : Net) (fl : List Rat) (opt : Rat) (x : V → Rat) (h : (n.cycleFree fl opt).IsOpt x) :
+    n.CycleFreeRegion fl opt (netOf x) ∧ (n.cycleFree fl opt).value x = n.sumAbsInt (netOf x) ∧
+    ∀ v, n.CycleFreeRegion fl opt v → n.sumAbsInt (netOf x) ≤ n.sumAbsInt v := cycleFree_optimum n fl opt x h
+
+open AuxM in
+/-- **what the region is**: for a start flux inside the reaction bounds, a boundary flux equals its start value, an internal flux keeps the
+direction of its start value, is at most as large, and stays inside the reaction bounds -/
+theorem cycle_free_bounds_meaning (r : Rxn) (fl v : Rat) (hfl : Core.inBox (r.lb, r.ub) fl) (hv : Core.inBox (cycleFreeBounds r fl) v) :
+    (r.boundary = true → v = fl) ∧
+    (r.boundary = false → (0 ≤ fl → 0 ≤ v ∧ v ≤ fl) ∧ (fl < 0 → fl ≤ v ∧ v ≤ 0) ∧ Core.inBox (r.lb, r.ub) v) :=
+  cycleFreeBounds_spec r fl v hfl hv
+
+example : AuxM.cycleFreeBounds ⟨"R", "R_rev", .fin (-5), .fin 8, [("A", -1), ("B", 1)]⟩ 3 = (.fin 0, .fin 3) := by decide +kernel
+example : AuxM.cycleFreeBounds ⟨"R", "R_rev", .fin (-5), .fin 8, [("A", -1), ("B", 1)]⟩ (-2) = (.fin (-2), .fin 0) := by decide +kernel
 
 end C17
